@@ -90,6 +90,15 @@ PROPS = {
         "fingerprints": ["builder:", "internal/tool:", "internal/base:KnowledgeContext", "engine:updateIncremental"],
         "assumptions": ["one compile unit never defines a name twice (rejected by the listener, C10)"],
     },
+    "C02": {
+        "lean": ["GV.Props.C02"],
+        "scenarios": [{"scn": "eval", "filter": "stmt", "n": {"quick": 300, "thorough": 4000},
+                       "aspects": ["value", "state", "trace", "driver", "build", "hang"]}],
+        "rule": "random statement programs (nested if / else-if / else, for, forRange, break, continue, return at any depth, plain and compound assignments to locals, struct fields, pointer scalars, map / slice / array elements, observer calls), random injected data incl. boundary values; non-trivial = the rule ran to completion",
+        "trusted_base": [],
+        "fingerprints": ["internal/base:", "context:", "internal/core:", "internal/iter:"],
+        "assumptions": [],
+    },
 }
 
 ORCH_NOTE = ("Model = skeleton regenerated from engine/gengine.go by /verif/extract on every run (T1); theorems hold for all "
